@@ -77,5 +77,8 @@ def main(argv):
     if cmd == "sensitivity":
         from selftest import sensitivity
         return sensitivity.main(rest)
+    if cmd == "seeded":
+        from selftest import sensitivity
+        return sensitivity.seeded_main(rest)
     print("unknown selftest", cmd)
     return 2
